@@ -160,7 +160,7 @@ pub fn run(ctx: &mut Ctx) {
     {
         use fuel_tx::{UploadBody};
         let mut counts: Vec<usize> = vec![256, 1024, 1025];
-        if ctx.thorough() { counts.extend([255, 1023, 3000, 70_000]); }
+        if ctx.thorough() { counts.extend([255, 1023, 3000]); }
         for n in counts {
             let pol = policies(&mut ctx.rng, 0b1000);
             let wits: Vec<Witness> = (0..n).map(|i| vec![(i % 251) as u8; i % 3].into()).collect();
